@@ -14,5 +14,7 @@ pub mod scn_conc;
 pub mod scn_c14;
 pub mod scn_seq;
 pub mod scn_c18;
+#[cfg(feature = "test-strategies")]
+pub mod scn_nf;
 #[cfg(feature = "serde")]
 pub mod scn_c20;
